@@ -963,7 +963,9 @@ def _str_atoms(seq):
     for count, fragment in seq:
         if isatom(fragment):
             # Normal isotope string form is #-Yy, but we want Yy[#]
-            if isisotope(fragment) and 'symbol' not in fragment.__dict__:
+            # Note: D and T have their own symbol, also when they are ions.
+            isotope = fragment.element if ision(fragment) else fragment
+            if isisotope(fragment) and 'symbol' not in isotope.__dict__:
                 ret += "%s[%d]"%(fragment.symbol, fragment.isotope)
             else:
                 ret += fragment.symbol
